@@ -198,6 +198,7 @@ def reader_table(facts, rd):
     rows = []
     comp = {}
     spec_local = None
+    cands = []
     for bi, si, s in rd.stmts():
         if s["k"] != "assign" or not s["lhs"]["p"]:
             continue
@@ -214,7 +215,25 @@ def reader_table(facts, rd):
                 fld = tl[2]
         if fld is None:
             continue
-        t = rd.term_of_rvalue(s["rv"])
+        cands.append((bi, fld, rd.term_of_rvalue(s["rv"]), s))
+    # a field filled in place (`spec.field.copy_from_slice(&reader.read_bytes(4)?)`): the call that receives
+    # `&mut spec.field` together with something read from the stream
+    for bi, tcall in rd.calls():
+        if rd.blocks[bi]["cleanup"] or bi not in idx or not tcall["args"]:
+            continue
+        a0 = rd.term_of_operand(tcall["args"][0])
+        while a0[0] == "cast":
+            a0 = a0[1]
+        if not (a0[0] == "ref" and a0[2]):
+            continue
+        tl = strip_refs(a0)
+        while tl[0] in ("deref", "index"):
+            tl = strip_refs(tl[1])
+        if tl[0] == "field" and len(tl) > 4 and tl[4] == SPEC and isinstance(tl[2], str) and len(tcall["args"]) > 1:
+            rest = ("agg", "tuple", None, None, tuple(rd.term_of_operand(a) for a in tcall["args"][1:]))
+            if any(x[0] == "call" and "BinArchiveReader" in x[1] for x in walk(rest)):
+                cands.append((bi, tl[2], rest, {"line": tcall.get("line")}))
+    for bi, fld, t, s in cands:
         g = dom_guards(rd, bi, cd)
         bit = "always"
         long_form = False
@@ -281,7 +300,12 @@ def reader_table(facts, rd):
                         if ia[0] == "const":
                             fbit = ia[1]
         if kind is None:
-            continue
+            # read through some other accessor of the stream reader (`read_u8` four times for a colour, ...): still a
+            # row of the table, of a kind that has no writer dual among the typed field accessors
+            raw = sorted(x[1].rsplit("::", 1)[-1] for x in walk(t) if x[0] == "call" and "BinArchiveReader" in x[1] and x[1].rsplit("::", 1)[-1].startswith("read_"))
+            if not raw:
+                continue
+            kind = "%s x%d" % (raw[0], len(raw)) if len(set(raw)) == 1 else "+".join(raw)
         if fbit is not None:
             bit = fbit
         rows.append({"field": fld, "bit": bit, "kind": kind, "order": idx.get(bi, 0), "long": long_form, "line": s["line"],
